@@ -19,8 +19,8 @@ ASSUMPTIONS = ["EXH/EXD layout as documented (Lumina): big-endian, 32-byte heade
 def plan(tier):
     if tier == "quick":
         return [("debug", 16, dict(n=50, rows=30, big=True, arch=3)), ("release", 4, dict(n=30, rows=30, big=True, arch=2))]
-    return [("debug", 16, dict(n=250, rows=40, big=True, arch=12)), ("release", 4, dict(n=120, rows=40, big=True, arch=6)),
-            ("asan", 4, dict(n=25, rows=25, big=False, arch=2))]
+    return [("debug", 16, dict(n=1200, rows=40, big=True, arch=30)), ("release", 8, dict(n=500, rows=40, big=True, arch=12)),
+            ("asan", 4, dict(n=80, rows=25, big=False, arch=3))]
 
 
 def gen_schema(rng):
